@@ -30,11 +30,15 @@ def u_greedy():
     W = z3.Function("greedy_weight", INT, REAL)
     PID = z3.Function("greedy_path_id", INT, INT)
 
+    CEU, CEV = z3.Function("constraint_edge_tail", INT, INT), z3.Function("constraint_edge_head", INT, INT)
+    ELEN = z3.Function("edge_length_attribute", INT, INT, REAL)
+
     class Sub(list):
-        """one sub-path constraint: a (well-formed) list whose edges are abstract; only its identity j and its length matter here"""
+        """one sub-path constraint: a (well-formed) list of edges, represented by ONE arbitrary edge of it; its identity j and its length matter here"""
         def __init__(self, j):
-            super().__init__()
-            self.j = lift(j)
+            j = lift(j)
+            super().__init__([("constraint_edge_tail", "constraint_edge_head")])       # an arbitrary edge of the constraint (opaque names)
+            self.j = j
 
     def mk(wt):
         st = {}
@@ -50,6 +54,12 @@ def u_greedy():
                 if not isinstance(seq, Sub):
                     raise Unsupported("max_occurrence of something else than a constraint")
                 core.ctx().prove("pre:max_occurrence-is-asked-about-the-greedy-paths", z3.BoolVal(paths_in_DAG is st["paths"]), kind="pre")
+                # coverage is counted in EDGES in this contract (no length coverage requested): every constraint edge must count 1, whatever
+                # length attribute the graph carries; max_occurrence weighs an edge by edge_lengths.get(edge, 1)
+                ok = z3.BoolVal(True)
+                for key, val in (edge_lengths or {}).items():
+                    ok = z3.And(ok, lift(val) == 1)
+                core.ctx().prove("pre:with-edge-count-coverage-max_occurrence-counts-every-constraint-edge-as-1-(also-when-a-length-attribute-is-set)", ok, prop=P, kind="pre")
                 return Sym(OCC(seq.j))
 
         def inv(ns, seq, done):
@@ -62,7 +72,14 @@ def u_greedy():
                 def decompose_using_max_bottleneck(self, attr):
                     return (st["paths"], st["weights"])
                 def has_edge(self, u, v): return True
-                def __getitem__(self, u): raise Unsupported("edge data of a constraint edge")
+                def __getitem__(self, u):
+                    class Row:
+                        def __getitem__(s2, v):
+                            class Data:
+                                def get(s3, attr, default=None):
+                                    return default if attr is None else Sym(z3.Real("length_attribute_of_the_constraint_edge"))      # any value
+                            return Data()
+                    return Row()
 
             class Me(Tracked):
                 pass
@@ -76,7 +93,8 @@ def u_greedy():
             st["paths"] = SymSeq(n, lambda q: Sym(PID(lift(q))), SInt, "greedy_paths")
             st["weights"] = SymSeq(n, lambda q: Sym(W(lift(q))), SReal, "greedy_weights")
             me.G = G()
-            me.flow_attr, me.flow_attr_origin, me.length_attr = "flow", "edge", None
+            me.flow_attr, me.flow_attr_origin = "flow", "edge"
+            me.length_attr = "length" if c.decide(z3.Bool("a_length_attribute_is_set"), "length-attr") else None
             me.k = Sym(k)
             me.subpath_constraints = SymSeq(m, lambda q: Sub(q), None, "constraints")
             me.subpath_constraints_coverage = Sym(cov)
@@ -114,7 +132,7 @@ def u_greedy():
                 c.prove("post:returns-a-bool", z3.BoolVal(False), prop=P)
 
         loops = {0: dict(inv=inv, prop=P)}
-        return Unit(F, "kFlowDecomp._get_solution_with_greedy", h, globs=dict(utils=UtilsStub, time=TimeStub, gu=GU, len=len_), loops=loops,
+        return Unit(F, "kFlowDecomp._get_solution_with_greedy", h, globs=dict(utils=UtilsStub, time=TimeStub, gu=GU, len=len_), loops={0: dict(loops[0], keep=("edge_lengths", "constraint_length", "coverage_fraction"))},
                     props=["C05", "C10"], name="%s:kFlowDecomp._get_solution_with_greedy[weight_type=%s]" % (F, wt.__name__),
                     callee_contracts=["graphutils.max_occurrence (C10)", "stDAG.decompose_using_max_bottleneck (trusted: returns paths and weights of equal length)"],
                     assumptions=["constraints are well-formed lists of edges of the graph (the malformed branch returns False before anything is stored; validated by the constructor, C19)",
